@@ -91,6 +91,7 @@ def optInt (j : Json) (k : String) : R (Option Int) :=
 inductive Item where
   | op (o : Op)
   | getItem (name : String)
+  | getAttr (name : String)
   | getPos (name : String) (i : Int)
   | getLabel (name : String) (label : Nat)
   | getLabelSlice (name : String) (a b : Option Nat) (step : Option Int)
@@ -123,6 +124,7 @@ def parseItem (j : Json) : R Item := do
   | "setStrict" => do pure (.op (.setStrict (← bool j "b")))
   | "badKey" => do pure (.op (.badKey (← bool j "tuple")))
   | "getItem" => do pure (.getItem (← str j "name"))
+  | "getAttr" => do pure (.getAttr (← str j "name"))
   | "getPos" => do pure (.getPos (← str j "name") (← int j "i"))
   | "getLabel" => do pure (.getLabel (← str j "name") (← nat j "label"))
   | "getLabelSlice" => do
@@ -178,12 +180,14 @@ def readStr : ReadResult → String
   | .raised e => "!" ++ excStr e
   | .elem v => "e:" ++ valStr v
   | .array shp data => "a:" ++ shapeStr shp ++ ":" ++ joinWith "," (data.map valStr)
+  | .other => "other"
 
 def runItems : Store → List Item → List String → List String
   | _, [], acc => acc.reverse
   | s, .op o :: rest, acc =>
     runItems (step s o).1 rest ((outcomeStr (step s o).2 ++ "|" ++ stateStr (step s o).1) :: acc)
   | s, .getItem n :: rest, acc => runItems s rest (readStr (getItem s n) :: acc)
+  | s, .getAttr n :: rest, acc => runItems s rest (readStr (getAttr s n) :: acc)
   | s, .getPos n i :: rest, acc => runItems s rest (readStr (getPos s n i) :: acc)
   | s, .getLabel n l :: rest, acc => runItems s rest (readStr (getLabel s n l) :: acc)
   | s, .getLabelSlice n a b st :: rest, acc => runItems s rest (readStr (getLabelSlice s n a b st) :: acc)
